@@ -13,7 +13,6 @@ import (
 	"time"
 
 	"github.com/irai/packet"
-	"github.com/irai/packet/fastlog"
 	dhcp4 "github.com/irai/packet/handlers/dhcp4_spoofer"
 	"verifharness/drv"
 	"verifharness/gen"
@@ -28,8 +27,9 @@ type dhcpCfg struct {
 	Net   int    `json:"net"`                   // index into dNets
 	Mode  int    `json:"mode"`                  // 1 primary, 2 secondary, 3 secondary-nice
 	File  string `json:"file"`                  // lease file ("" = no persistence)
-	Quiet bool   `json:"quiet"`                 // unused
-	DNS   int    `json:"dns,omitempty"`         // configured DNS server: 0 = 8.8.4.4, 1 = 9.9.9.9
+	Quiet bool   `json:"quiet"`                 // the package loggers are set to error level (a quiet deployment): behaviour must not depend on it
+	Debug bool   `json:"debug,omitempty"`       // ... or to debug level
+	DNS   int    `json:"dns,omitempty"`         // configured DNS server: 0 = 8.8.4.4, 1 = 9.9.9.9, 2 = not configured (documented default: the router)
 	NF    int    `json:"nf,omitempty"`          // netfilter prefix: 0 = the net's own, 1 = same gateway address, one bit longer mask
 	Pre   []int  `json:"precaptured,omitempty"` // MAC indices the session already reports as captured when the handler is constructed
 }
@@ -323,11 +323,12 @@ func runDHCP(tb drv.TB, rec *drv.Rec, sub string, h dhcpHistory, or dhcpOracles)
 }
 
 func runDHCPOn(tb drv.TB, rec *drv.Rec, sub string, h dhcpHistory, or dhcpOracles, env *dhcpEnv, res *dhcpResult, led *dLedger) {
-	if h.Cfg.Quiet { // process-wide setting: histories run one after the other in a shard
-		packet.Logger.SetLevel(fastlog.LevelError)
-		dhcp4.Logger.SetLevel(fastlog.LevelError)
-		defer packet.Logger.SetLevel(fastlog.LevelInfo)
-		defer dhcp4.Logger.SetLevel(fastlog.LevelInfo)
+	if h.Cfg.Quiet || h.Cfg.Debug { // process-wide setting: histories run one after the other in a shard
+		lv := 1
+		if h.Cfg.Debug {
+			lv = 2
+		}
+		defer setLogLevel(lv)()
 	}
 	n := dNets[h.Cfg.Net]
 	ourID := n.host
@@ -457,6 +458,13 @@ func runDHCPOn(tb drv.TB, rec *drv.Rec, sub string, h dhcpHistory, or dhcpOracle
 					if reqIP.IsValid() {
 						m.Options = append(m.Options, ref.DHCPOpt{Code: 50, Data: reqIP.AsSlice()})
 					}
+				case "renew-other": // a renewal (ciaddr, no requested address) that carries another server's identifier
+					mustNotAck, mustNotAckWhy = true, "request names another server"
+					m.Options = append(m.Options, ref.DHCPOpt{Code: 54, Data: n.router.AsSlice()})
+					if reqIP.IsValid() {
+						m.CIAddr = reqIP.As4()
+						src = reqIP.As4()
+					}
 				case "renew", "rebind":
 					if reqIP.IsValid() {
 						m.CIAddr = reqIP.As4()
@@ -470,7 +478,7 @@ func runDHCPOn(tb drv.TB, rec *drv.Rec, sub string, h dhcpHistory, or dhcpOracle
 						m.Options = append(m.Options, ref.DHCPOpt{Code: 50, Data: reqIP.AsSlice()})
 					}
 				}
-				if op.Kind != "sel-other" {
+				if op.Kind != "sel-other" && op.Kind != "renew-other" {
 					hold, holds := led.may[ident], led.may[ident].IsValid()
 					off := led.offered[ident]
 					offeredNow := (off.ok || off.expired) && off.ip == reqIP && off.xid == xid
@@ -606,7 +614,7 @@ func runDHCPOn(tb drv.TB, rec *drv.Rec, sub string, h dhcpHistory, or dhcpOracle
 		case "release":
 			led.drop(ident) // the server may keep the binding; dropping it here only makes the oracle more permissive
 		case "request":
-			if op.Kind == "sel-other" {
+			if op.Kind == "sel-other" || op.Kind == "renew-other" {
 				led.drop(ident)
 				if led.offered[ident].ok {
 					led.offered[ident].ok, led.offered[ident].expired = false, true
